@@ -5,7 +5,7 @@
    environments in which no variable is bound to the account `world` (the checker sees the shape
    of the source, not the values). Both are also judged on every run by checking AND running each
    generated script (prop_C17). *)
-From NS Require Import Check Eval Run SoundnessProofs ScriptSound ShapeSound.
+From NS Require Import Check Eval Run SoundnessProofs ScriptSound ShapeSound Lexer Parser NestedParse.
 
 (* whole scripts: for every complete program (what an error-free parse yields), if the checker
    reports no error-severity diagnostic then, whatever the texts given for the variables, whatever
@@ -47,7 +47,18 @@ Theorem C17_silent_no_shape_failure : forall p s raw sb flag,
   end.
 Proof. exact check_silent_no_shape_failure. Qed.
 
+(* the same for every text the reference parser accepts: no hypothesis on the tree is left *)
+Theorem C17_soundness_for_accepted_texts : forall text p s raw sb flag,
+  parse_text text = Parsed p ->
+  check_default p [] = Ok s -> errors_count (cs_diags s) = O ->
+  match run_program p raw sb flag with
+  | Err e => ~ static_err e
+  | _ => True
+  end.
+Proof. intros text p s raw sb flag H. exact (check_program_sound p s raw sb flag (accepted_text_complete text p H)). Qed.
+
 Print Assumptions C17_expression_soundness.
+Print Assumptions C17_soundness_for_accepted_texts.
 Print Assumptions C17_silent_no_shape_failure.
 Print Assumptions C17_script_soundness.
 
